@@ -175,11 +175,15 @@ impl RecBackend {
 pub struct RecAuth {
     pub log: Log,
     pub keys: Vec<(String, String)>,
+    pub fail_with: Option<ErrFactory>,
 }
 
 #[async_trait::async_trait]
 impl S3Auth for RecAuth {
     async fn get_secret_key(&self, access_key: &str) -> S3Result<SecretKey> {
+        if let Some(f) = &self.fail_with {
+            return Err(f());
+        }
         let hit = self.keys.iter().find(|(a, _)| a == access_key);
         self.log.lock().unwrap().push(Event::Auth { access_key: access_key.to_owned(), found: hit.is_some() });
         match hit {
@@ -205,11 +209,14 @@ pub enum AccessMode {
     Default,
     /// hook that does not override `check` at all (it inherits the trait's default) and records its typed hooks only
     Inherited,
+    /// hook whose `check` returns the configured error (`SvcCfg::fail_with`)
+    FailWith,
 }
 
 pub struct RecAccess {
     pub log: Log,
     pub mode: AccessMode,
+    pub fail_with: Option<ErrFactory>,
 }
 
 pub struct InheritAccess(pub RecAccess);
@@ -220,6 +227,9 @@ fn denied(msg: &'static str) -> S3Error {
 
 impl RecAccess {
     fn on_check(&self, cx: &mut S3AccessContext<'_>) -> S3Result<()> {
+        if self.mode == AccessMode::FailWith {
+            return Err(self.fail_with.as_ref().map_or_else(|| denied("no error configured"), |f| f()));
+        }
         let op = cx.s3_op().name().to_owned();
         let cred = cx.credentials().map(|c| c.access_key.clone());
         let allowed = match self.mode {
@@ -227,6 +237,7 @@ impl RecAccess {
             AccessMode::Deny => false,
             AccessMode::DenyOp(name) => op != name,
             AccessMode::Default => cred.is_some(),
+            AccessMode::FailWith => false,
         };
         self.log.lock().unwrap().push(Event::Check { op, cred, allowed });
         if allowed { Ok(()) } else { Err(denied("denied in check")) }
@@ -251,11 +262,14 @@ pub enum RouteMode {
     MatchAllOpen,
     /// matches everything and does NOT override check_access (inherits the trait's default: refuse anonymous requests)
     MatchAllInherited,
+    /// matches everything, admits everybody, and its handler returns the configured error (`SvcCfg::fail_with`)
+    FailWith,
 }
 
 pub struct RecRoute {
     pub log: Log,
     pub mode: RouteMode,
+    pub fail_with: Option<ErrFactory>,
 }
 
 #[async_trait::async_trait]
@@ -263,7 +277,7 @@ impl S3Route for RecRoute {
     fn is_match(&self, _method: &Method, uri: &Uri, _headers: &HeaderMap, _ext: &mut http::Extensions) -> bool {
         let matched = match self.mode {
             RouteMode::None | RouteMode::Never => false,
-            RouteMode::MatchAll | RouteMode::MatchAllOpen | RouteMode::MatchAllInherited => true,
+            RouteMode::MatchAll | RouteMode::MatchAllOpen | RouteMode::MatchAllInherited | RouteMode::FailWith => true,
             RouteMode::MatchPrefix => uri.path().starts_with("/custom-route"),
         };
         self.log.lock().unwrap().push(Event::RouteMatch { matched });
@@ -272,7 +286,7 @@ impl S3Route for RecRoute {
 
     async fn check_access(&self, req: &mut S3Request<Body>) -> S3Result<()> {
         let cred = req.credentials.as_ref().map(|c| c.access_key.clone());
-        let allowed = self.mode == RouteMode::MatchAllOpen || cred.is_some();
+        let allowed = matches!(self.mode, RouteMode::MatchAllOpen | RouteMode::FailWith) || cred.is_some();
         self.log.lock().unwrap().push(Event::RouteCheck { cred, allowed });
         if allowed { Ok(()) } else { Err(S3Error::with_message(S3ErrorCode::AccessDenied, "Signature is required")) }
     }
@@ -280,6 +294,9 @@ impl S3Route for RecRoute {
     async fn call(&self, req: S3Request<Body>) -> S3Result<S3Response<Body>> {
         let cred = req.credentials.as_ref().map(|c| c.access_key.clone());
         self.log.lock().unwrap().push(Event::RouteCall { cred });
+        if let (RouteMode::FailWith, Some(f)) = (self.mode, &self.fail_with) {
+            return Err(f());
+        }
         if req.uri.path().ends_with("/fail") {
             // a route handler that fails: the error must be rendered like any other S3 error
             let mut e = S3Error::with_message(S3ErrorCode::ServiceUnavailable, "the custom route failed <&>");
@@ -320,11 +337,16 @@ pub struct SvcCfg {
     pub read_body: bool,
     /// the provider is the library's own `SimpleAuth` holding `keys` (nothing is recorded for it) instead of the recording one
     pub simple_auth: bool,
+    /// the error that the provider (`auth_fails`), the access hook (`AccessMode::FailWith`) or the route (`RouteMode::FailWith`) returns
+    pub fail_with: Option<ErrFactory>,
+    pub auth_fails: bool,
 }
+
+pub type ErrFactory = Arc<dyn Fn() -> S3Error + Send + Sync>;
 
 impl Default for SvcCfg {
     fn default() -> Self {
-        SvcCfg { keys: None, access: AccessMode::None, route: RouteMode::None, host: HostMode::None, script: None, read_body: true, simple_auth: false }
+        SvcCfg { keys: None, access: AccessMode::None, route: RouteMode::None, host: HostMode::None, script: None, read_body: true, simple_auth: false, fail_with: None, auth_fails: false }
     }
 }
 
@@ -348,18 +370,18 @@ impl SvcCfg {
                 }
                 b.set_auth(auth);
             } else {
-                b.set_auth(RecAuth { log: log.clone(), keys: keys.clone() });
+                b.set_auth(RecAuth { log: log.clone(), keys: keys.clone(), fail_with: if self.auth_fails { self.fail_with.clone() } else { None } });
             }
         }
         if self.access == AccessMode::Inherited {
-            b.set_access(InheritAccess(RecAccess { log: log.clone(), mode: self.access }));
+            b.set_access(InheritAccess(RecAccess { log: log.clone(), mode: self.access, fail_with: None }));
         } else if self.access != AccessMode::None {
-            b.set_access(RecAccess { log: log.clone(), mode: self.access });
+            b.set_access(RecAccess { log: log.clone(), mode: self.access, fail_with: self.fail_with.clone() });
         }
         if self.route == RouteMode::MatchAllInherited {
-            b.set_route(InheritRoute(RecRoute { log: log.clone(), mode: self.route }));
+            b.set_route(InheritRoute(RecRoute { log: log.clone(), mode: self.route, fail_with: None }));
         } else if self.route != RouteMode::None {
-            b.set_route(RecRoute { log: log.clone(), mode: self.route });
+            b.set_route(RecRoute { log: log.clone(), mode: self.route, fail_with: self.fail_with.clone() });
         }
         match &self.host {
             HostMode::None => {}
